@@ -216,6 +216,11 @@ def prop_functional(ch, ctx):
     if not np.array_equal(g_call, g_f):
         ctx.fail(f'functional.f|{region}|mismatch', f'Gamma(x,T) = {g_call.tolist()} but Gamma.f(x,T,*args) = {g_f.tolist()}')
     xs = np.array([x[i] for i in case.gidx], float)
+    # does gamma depend on the composition at all?  (informational, see DESIGN.md C16)
+    if sum(1 for i in case.gidx if x[i] > 1e-3 and x2[i] > 1e-3) >= 2 and \
+            max(abs(x[i] / max(xs.sum(), 1e-300) - x2[i] / sum(x2[j] for j in case.gidx)) for i in case.gidx) > 1e-2:
+        g2 = evaluate(ctx, G, x2, case.T, 'functional.call', case.region(x2, comp2))
+        ctx.cell(('varies:' if float(np.abs(g2 - g_call).max()) > 1e-9 else 'const:') + case.cls)
     if isinstance(G, eq.GroupActivityCoefficients) and xs.sum() > 0:
         g_sub = np.asarray(ctx.call('functional.sub', G.activity_coefficients, xs / xs.sum(), case.T, region=region), float)
         ref = g_call[case.gidx]
@@ -225,11 +230,6 @@ def prop_functional(ch, ctx):
             ctx.fail(f'functional.sub|{region}|mismatch',
                      f'{case.names} x={list(map(float, x))} T={case.T!r}: Gamma(x,T) = {ref.tolist()} but '
                      f'activity_coefficients(x_sub,T) = {g_sub.tolist()}')
-    # does gamma depend on the composition at all?  (informational, see DESIGN.md C16)
-    if sum(1 for i in case.gidx if x[i] > 1e-3 and x2[i] > 1e-3) >= 2 and \
-            max(abs(x[i] / max(xs.sum(), 1e-300) - x2[i] / sum(x2[j] for j in case.gidx)) for i in case.gidx) > 1e-2:
-        g2 = evaluate(ctx, G, x2, case.T, 'functional.call', case.region(x2, comp2))
-        ctx.cell(('varies:' if float(np.abs(g2 - g_call).max()) > 1e-9 else 'const:') + case.cls)
     if case.interesting(x):
         ctx.nontriv(['functional', case.key(x)])
 
@@ -284,7 +284,7 @@ def prop_gibbs_duhem(ch, ctx):
     s = float((base * dln).sum())
     scale = float(np.abs(dln).max())
     tol = 1e-6 * scale + 1e-8
-    if abs(s) <= tol: ctx.metric_max(f'gd.{path}:|sum x dln gamma|/tol', abs(s) / tol)
+    if abs(s) <= tol: ctx.metric_max(f'gd.{path}:{case.cls}:|sum x dln gamma|/tol', abs(s) / tol)
     else:
         ctx.fail(f'gd.{path}|{region}|mismatch',
                  f'{case.names} T={case.T!r} x={base.tolist()} u={uu.tolist()}: sum x_i dln(gamma_i)/d(eps) = {s!r}, '
